@@ -3,6 +3,7 @@ package main
 import (
 	"fmt"
 	"math/rand"
+	"runtime"
 	"sort"
 	"strconv"
 	"strings"
@@ -380,6 +381,242 @@ func c18RunTicker(header []string, ops [][]string) []string {
 	return obs
 }
 
+// ---------------------------------------------------------------------------------------------
+// Base leecher with its real loop:  L <hmask> <cmask> ; r <p> ; u <p> ; x ; xb ; w
+//   Start() is called with recheckInterval = 300us, so ticker Routines (under Mu) run concurrently
+//   with the API calls of the harness.  ShouldTerminateSession answers bit i of hmask at its
+//   i-th call, StartSession picks candidates[(cmask >> 2i) & 3 mod len] at its i-th call.
+//   xb = Terminate() issued while a ticker Routine is inside SelectSessionPeerCandidates (the
+//   callback blocks until Terminate() has had time to reach Mu): forces the interleaving
+//   "Routine holds Mu, Terminate arrives".
+//   Every callback is logged with the kind of goroutine that made it (t: = the loop goroutine,
+//   a: = an API call), API calls log >op before and <s<session>n<PeersNum> after.  The driver
+//   checks that the log is linearizable (callbacks of a Routine run are not interleaved with
+//   callbacks of an API call; register calls float between their markers), replays the model
+//   on the linearization and compares (trace validation).
+
+func c18Gid() string {
+	var buf [64]byte
+	n := runtime.Stack(buf[:], false)
+	f := strings.Fields(string(buf[:n]))
+	if len(f) >= 2 {
+		return f[1]
+	}
+	return "?"
+}
+
+func c18RunLoop(header []string, ops [][]string) []string {
+	hmask, _ := strconv.ParseUint(header[1], 10, 64)
+	cmask, _ := strconv.ParseUint(header[2], 10, 64)
+	var mu sync.Mutex
+	var obs []string
+	api := map[string]bool{c18Gid(): true}
+	var sess *string
+	hcalls, scalls := 0, 0
+	blockSelect := false
+	entered := make(chan struct{}, 1)
+	release := make(chan struct{})
+	tag := func() string {
+		if api[c18Gid()] {
+			return "a:"
+		}
+		return "t:"
+	}
+	logf := func(t string) { obs = append(obs, t) }
+	sessTok := func() string {
+		if sess == nil {
+			return "-"
+		}
+		return vu.U64(c18PeerNum(*sess))
+	}
+	var d *basestreamleecher.BaseLeecher
+	d = basestreamleecher.New(300*time.Microsecond, basestreamleecher.Callbacks{
+		SelectSessionPeerCandidates: func() []string {
+			nums := make([]uint64, 0, len(d.Peers))
+			for p := range d.Peers {
+				nums = append(nums, c18PeerNum(p))
+			}
+			sort.Slice(nums, func(i, j int) bool { return nums[i] < nums[j] })
+			res := make([]string, len(nums))
+			for i, n := range nums {
+				res[i] = c18PeerName(n)
+			}
+			mu.Lock()
+			tg := tag()
+			logf(tg + "C" + strconv.Itoa(len(res)))
+			wait := blockSelect && tg == "t:" && len(res) > 0
+			if wait {
+				blockSelect = false
+			}
+			mu.Unlock()
+			if wait {
+				entered <- struct{}{}
+				<-release
+			}
+			return res
+		},
+		ShouldTerminateSession: func() bool {
+			mu.Lock()
+			defer mu.Unlock()
+			b := hcalls < 64 && hmask&(1<<uint(hcalls)) != 0
+			hcalls++
+			logf(tag() + "H" + vu.B(b))
+			return b
+		},
+		StartSession: func(c []string) {
+			mu.Lock()
+			defer mu.Unlock()
+			ch := 0
+			if scalls < 32 {
+				ch = int((cmask >> uint(2*scalls)) & 3)
+			}
+			scalls++
+			p := c[ch%len(c)]
+			cs := make([]string, len(c))
+			for i, x := range c {
+				cs[i] = vu.U64(c18PeerNum(x))
+			}
+			logf(tag() + "S" + vu.U64(c18PeerNum(p)) + ":" + strings.Join(cs, ","))
+			sess = &p
+			vu.Stat("loop_start")
+		},
+		TerminateSession: func() {
+			mu.Lock()
+			defer mu.Unlock()
+			logf(tag() + "T" + sessTok())
+			sess = nil
+		},
+		OngoingSession: func() bool {
+			mu.Lock()
+			defer mu.Unlock()
+			logf(tag() + "O" + vu.B(sess != nil))
+			return sess != nil
+		},
+		OngoingSessionPeer: func() string {
+			mu.Lock()
+			defer mu.Unlock()
+			logf(tag() + "P")
+			if sess == nil {
+				return ""
+			}
+			return *sess
+		},
+	})
+	d.Start()
+	call := func(name string, f func()) {
+		mu.Lock()
+		logf(">" + name)
+		mu.Unlock()
+		func() {
+			defer func() {
+				if r := recover(); r != nil {
+					mu.Lock()
+					logf("PANIC")
+					mu.Unlock()
+				}
+			}()
+			f()
+		}()
+		n := d.PeersNum()
+		mu.Lock()
+		logf("<s" + sessTok() + "n" + strconv.Itoa(n))
+		mu.Unlock()
+	}
+	terminated := false
+	for _, op := range ops {
+		if len(op) == 0 {
+			continue
+		}
+		vu.Stat("loop_op_" + op[0])
+		switch op[0] {
+		case "r":
+			p, _ := strconv.ParseUint(op[1], 10, 64)
+			call("r"+op[1], func() { _ = d.RegisterPeer(c18PeerName(p)) })
+		case "u":
+			p, _ := strconv.ParseUint(op[1], 10, 64)
+			call("u"+op[1], func() { _ = d.UnregisterPeer(c18PeerName(p)) })
+		case "x":
+			if terminated {
+				continue // a second Terminate panics on the closed channel: covered by mode B
+			}
+			terminated = true
+			call("x", func() { d.Terminate() })
+		case "xb":
+			if terminated {
+				continue
+			}
+			terminated = true
+			mu.Lock()
+			blockSelect = true
+			mu.Unlock()
+			blocked := false
+			select {
+			case <-entered:
+				blocked = true
+			case <-time.After(4 * time.Millisecond):
+				mu.Lock()
+				blockSelect = false
+				mu.Unlock()
+				select { // the callback may have slipped in
+				case <-entered:
+					blocked = true
+				default:
+				}
+			}
+			if blocked {
+				vu.Stat("loop_terminate_during_select")
+			}
+			done := make(chan struct{})
+			go func() {
+				mu.Lock()
+				api[c18Gid()] = true
+				mu.Unlock()
+				call("x", func() { d.Terminate() })
+				close(done)
+			}()
+			if blocked {
+				time.Sleep(400 * time.Microsecond) // let Terminate() reach Mu (or, if it does not take Mu first, run ahead)
+				release <- struct{}{}
+			}
+			<-done
+		case "w":
+			time.Sleep(700 * time.Microsecond)
+		default:
+			panic("bad op " + op[0])
+		}
+	}
+	time.Sleep(400 * time.Microsecond)
+	if !terminated {
+		call("x", func() { d.Terminate() }) // every history ends with Terminate()
+	}
+	d.Wg.Wait()
+	mu.Lock()
+	defer mu.Unlock()
+	return append(obs, "E")
+}
+
+func c18GenLoop(r *rand.Rand, emit func(...string)) {
+	in := []string{"L", strconv.FormatUint(r.Uint64()&r.Uint64(), 10), strconv.FormatUint(r.Uint64(), 10)}
+	npeers := 1 + r.Intn(3)
+	nops := 2 + r.Intn(9)
+	for i := 0; i < nops; i++ {
+		in = append(in, ";")
+		switch x := r.Intn(20); {
+		case x < 6:
+			in = append(in, "r", strconv.Itoa(1+r.Intn(npeers)))
+		case x < 10:
+			in = append(in, "u", strconv.Itoa(1+r.Intn(npeers)))
+		case x < 17:
+			in = append(in, "w")
+		case x < 18:
+			in = append(in, "x")
+		default:
+			in = append(in, "xb")
+		}
+	}
+	emit(in...)
+}
+
 func c18Split(input []string) (header []string, ops [][]string) {
 	var cur []string
 	first := true
@@ -415,6 +652,8 @@ func c18Run(input []string) []string {
 		return c18RunPeer(header, ops)
 	case "T":
 		return c18RunTicker(header, ops)
+	case "L":
+		return c18RunLoop(header, ops)
 	}
 	panic("bad header")
 }
@@ -542,6 +781,12 @@ func c18Gen(r *rand.Rand, n int, tier string, emit func(...string)) {
 	}
 	for i := 0; i < nt; i++ {
 		c18GenTicker(r, emit)
+	}
+	// the forced interleaving "a ticker Routine holds Mu inside SelectSessionPeerCandidates,
+	// Terminate() arrives" first, then random loop histories
+	emit("L", "0", "0", ";", "r", "1", ";", "u", "1", ";", "r", "1", ";", "xb", ";", "w")
+	for i := 0; i < nt; i++ {
+		c18GenLoop(r, emit)
 	}
 	if tier == "thorough" {
 		// exhaustive small scope, base leecher: every history of length <= 5 over two peers
